@@ -69,6 +69,7 @@ func ProcessSchedPart(run *report.Run, st *Setup, n int, kinds map[string]bool) 
 			run.Infra(err.Error())
 			return
 		}
+		env.MaybeTTY(run, fmt.Sprint(i), 4)
 		keep := false
 		defer func() {
 			if !keep {
